@@ -220,4 +220,13 @@ theorem replace_text_run_exports_blob_data (c : Pipes.Caps) (o : Cli.CliOpts) (a
     (hsrc : o.source ≠ b!"--no-data") : b!"--no-data" ∉ args :=
   Pipes.content_rules_get_blob_data c o args h hov hr hn hrefs hsrc
 
+
+/-- **The whole way, for every command line**: if what was typed reaches the filter (not a scan mode, not refused by
+    `validate_options`) and names a `--replace-text` file, the exporter is started without `--no-data`. -/
+theorem every_filtering_run_with_rules_sees_blob_data (c : Pipes.Caps) (badRegex argv : List Bytes) (o : Cli.CliOpts)
+    (args : List Bytes) (hp : Cli.parseArgs badRegex argv = .ok o) (hd : Pipes.dispatch o = .filter)
+    (hr : o.replaceText.isSome = true) (hx : Pipes.exportCmd c o = some args) (hov : o.feOverride = none)
+    (hrefs : b!"--no-data" ∉ o.refs) (hsrc : o.source ≠ b!"--no-data") : b!"--no-data" ∉ args :=
+  Pipes.filtering_run_with_rules_exports_blob_data c badRegex argv o args hp hd hr hx hov hrefs hsrc
+
 end Frrs.C05
